@@ -130,6 +130,8 @@ void h_ptrdiff(void) {
     int sel = pointer_block(0, &pl, &rt, &rs);
     __CPROVER_assert(sel == 2 && rs == Sign_SIGNED, "a pointer difference is a signed integer");
     __CPROVER_assert((rt == VType_INT || rt == VType_LONG || rt == VType_LONGLONG) && (size_t)rank_size(rt, &pl) == pl.sizeof_size_t, "ptrdiff_t is as wide as size_t on the platform");
+    /* ... and the type of lowest rank with that width: int on the 32-bit ABIs (i386, win32), long on LP64, long long on win64 */
+    __CPROVER_assert(rt == (pl.sizeof_size_t == pl.sizeof_int ? VType_INT : pl.sizeof_size_t == pl.sizeof_long ? VType_LONG : VType_LONGLONG), "ptrdiff_t is the signed integer type of lowest rank that is as wide as size_t (int on unix32 / win32, long on unix64, long long on win64)");
     g_is_incdec = 1;
     __CPROVER_assert(pointer_block(0, &pl, &rt, &rs) == 1, "p++ is a pointer");
     g_is_incdec = 0;
